@@ -239,12 +239,21 @@ func TestC21Short(t *testing.T) {
 	})
 }
 
+// noiseLong: a legal 400-octet PUBLISH (three-octet length form) full of 0xa5
+var noiseLong = func() []byte {
+	b := []byte{0x01, 0x01, 0x90, 0x0c, 0x00, 0xa5, 0xa5, 0xa5, 0xa5}
+	for len(b) < 400 {
+		b = append(b, 0xa5)
+	}
+	return b
+}()
+
 // C22: decoded packets faithfully reflect the datagram.
 func TestC22(t *testing.T) {
 	vf.Check(t, vf.Prop[dgramCase]{
 		ID: "C22", Name: "decode-faithful",
 		Rule: "datagrams from the C20 generators (plus exhaustive lengths 0-2/0-3); those the decoder rejects are counted as label 'rejected' and not judged. Non-trivial = accepted datagram that uses the three-octet length form, has flag bits its type ignores, or whose length field disagrees with its size; distinct by bytes.",
-		Assumptions: []string{"the body is everything after the actual header up to the end of the datagram, whatever the length field announces (the length field is the one allowed difference)"},
+		Assumptions: []string{"the body is everything after the actual header up to the end of the datagram, whatever the length field announces (the length field is the one allowed difference)", "the decoded packet is compared after two further datagrams (a 400-octet PUBLISH of 0xa5, a PUBACK) have been decoded: it must not depend on the decoder's buffers"},
 		Exhaustive:  exhaustiveShort,
 		Gen:         func(t *rapid.T) dgramCase { return dgramCase{B: sngen.Datagram(t)} },
 		Run:         runC22,
@@ -262,6 +271,12 @@ func runC22(c dgramCase) (r vf.Result) {
 		return
 	}
 	r.Label("accepted")
+	// The decoded packet is what the gateway and the client keep (in transactions, in the buffer of a
+	// sleeping client) while they go on reading datagrams: it must stay faithful when the decoder is
+	// used again. Two more datagrams are decoded before the packet is looked at.
+	for _, other := range [][]byte{noiseLong, {0x04, 0x10, 0xa5, 0x5a}} {
+		decodeImpl(other)
+	}
 	h, herr := snref.ParseHeader(c.B)
 	if herr != nil {
 		r.Fail("accepted-without-header", "decoder accepted % x but it has no complete header: %v", head(c.B), herr)
